@@ -434,3 +434,27 @@ Fixpoint arun (s : astate) (ops : list aop) : list ares :=
   | op :: r => let a := api_step s op in
                a :: match a with AOk s' | ASoft _ s' => arun s' r | AHard _ => [] end
   end.
+
+(* diagnostics for replay files: first step at which model and observation part, and which component
+   (1 tables, 2 records, 3 object ids, 4 API values, 5 outcome kind, 6 error kind, 7 length) *)
+Definition snap_diag (s : astate) (sn : snap) : nat :=
+  if negb (store_eqb (st s) (o_tabs sn)) then 1
+  else if negb (list_eqb rec_eqb (recs s) (o_recs sn)) then 2
+  else if negb (list_eqb Nat.eqb (objids s) (o_objs sn)) then 3
+  else if negb (snap_ok s sn) then 4 else 0.
+
+Fixpoint diag (s : astate) (ops : list aop) (obs : list oev) (i : nat) : option (nat * nat * ares) :=
+  match ops, obs with
+  | [], [] => None
+  | op :: ops', ev :: obs' =>
+      let a := api_step s op in
+      match a, ev with
+      | AOk s', OSnap None sn => match snap_diag s' sn with 0 => diag s' ops' obs' (S i) | c => Some (i, c, a) end
+      | ASoft e s', OSnap (Some e') sn =>
+          if negb (err_eqb e e') then Some (i, 6, a)
+          else match snap_diag s' sn with 0 => diag s' ops' obs' (S i) | c => Some (i, c, a) end
+      | AHard e, OHard e' => if err_eqb e e' then None else Some (i, 6, a)
+      | _, _ => Some (i, 5, a)
+      end
+  | _, _ => Some (i, 7, AHard Unsupported)
+  end.
